@@ -440,6 +440,13 @@ def oracle(case, op, res, mem, structs, chip=None):
             if u is None or a1 % u or a2 % u:
                 bad.append(("dtype-misaligned", "command %d uses data type %d for address %#x length %d"
                             % (cmd, a3, a1, a2)))
+        # addresses below 0x01000000 are a core's own tightly coupled memory (ITCM / DTCM): the bytes "stored there" are
+        # those of the core the call names, so the command must be addressed to that core
+        if cmd in (CMD_READ, CMD_WRITE) and op[0] in ("read", "conn_read", "write", "conn_write") \
+                and a1 < 0x01000000 and p != op[1]:
+            bad.append(("per-core-memory-of-another-core",
+                        "%s for core %d: command %d for address %#x (core-private memory) is addressed to core %d of "
+                        "chip (%d, %d): another core's bytes are read / written" % (op[0], op[1], cmd, a1, p, x, y)))
         if cmd in (CMD_LINK_READ, CMD_LINK_WRITE) and (a1 % 4 or a2 % 4):
             bad.append(("link-cmd-misaligned", "link command %d for address %#x length %d" % (cmd, a1, a2)))
     if tgt[0] == "noop":
